@@ -11,6 +11,17 @@ symbol table>) uses in functions that do not (re)write the a<i> keys of the shar
 Source shapes read as the same thing (each keeps the Python meaning; the list is part of the trusted translator):
   * file names: `%` formatting, f-strings, concatenation with str(), "...{}".format(...), os.path.join(d, name) (only the last
     path component names the file), a name hoisted into a local (`path = ...; open(path)`), a module-level constant;
+  * file names, continued: a name handed back by a called function of the stage whose body is straight-line `name = <expr>` statements
+    and one final `return <string-building expr>` (`open(_previous_eqns_file(likelihood, comp))`, also hoisted: `p = _name_of(d, n)`) --
+    the arguments are substituted for the parameters; `sep.join(L)` for a list L of names (a display, a hoisted local, or
+    `[<string-building expr> for v in <literal/hoisted list>]` with one generator and no condition); a piece chosen by a conditional
+    of strings, in place or hoisted (`prefix = "unique" if unique else "all"`): the operation is listed once per possible name, first
+    arm first -- for a READ/APPEND that is every file it may touch; an open that TRUNCATES one of several names is listed `conditional`
+    with alternative `r` for each (none of them is known to be fresh afterwards); np.savetxt/os.remove/rename/copy target or a shell
+    command chosen that way: fail closed.  When the test of the conditional is a parameter that THIS call binds to the constant
+    True/False (as an argument or through its constant default, parameter never re-bound) only that arm is listed;
+  * a parameter a call leaves to its constant default (True/False/a string, never re-bound in the callee) has that value in the callee;
+    lists of names and conditional names are handed on to callees as they are;
   * loops over a literal list OR tuple of names (also hoisted into a local or a module-level constant) are unrolled, so they
     equal the duplicated statements; `with open(p, 'w'): pass` = `open(p, 'w').close()` (any open call counts);
   * open mode given positionally, as `mode=`, or through a local bound to a literal; 'b'/'t' dropped;
